@@ -102,6 +102,15 @@ def rewrite_item(text, relpath, base_line, rw, derive=None, keepattrs=False, wid
         def dropattr(mm):
             rw.add('drop-attr', relpath, base_line + text.count('\n', 0, mm.start()), mm.group(0))
             return blank_keep_newlines(mm.group(0))
+        # attributes of the same kinds that span several lines (e.g. thiserror's `#[error(\n ".."\n)]`)
+        while True:
+            m_ = mask(text)
+            mm = re.search(r'#\[(error|cfg_attr|serde|allow|doc)\b', m_)
+            if not mm:
+                break
+            close = match_close(m_, mm.start() + 1)
+            rw.add('drop-attr', relpath, base_line + text.count('\n', 0, mm.start()), text[mm.start():close + 1])
+            text = text[:mm.start()] + blank_keep_newlines(text[mm.start():close + 1]) + text[close + 1:]
         text = DROP_ATTR_RE.sub(dropattr, text)
         text = re.sub(r'#\[(from|source)\]', dropattr, text)    # thiserror field markers (derive is filtered out too)
     # 3. derives
